@@ -30,6 +30,9 @@ KeyEq(a, b) == Len(a) = Len(b) /\ \A i \in 3..Len(a) : a[i] = b[i]
 KeyOf(c) == SubSeq(c, 3, Len(c))
 MkCell(key) == <<0, 0>> \o key
 
+\* a constant handed to New / Apply / Eval is reproduced up to the sign of zero (DESIGN.md 5.5)
+Unx(c) == IF IsNull(c) THEN c ELSE [c EXCEPT ![2] = 0]
+
 \* value equality, null equal to null (Equals; group keys under Null(true))
 CellEq(a, b) == IF IsNull(a) \/ IsNull(b) THEN IsNull(a) /\ IsNull(b) ELSE KeyEq(a, b)
 
